@@ -1,10 +1,10 @@
-\* C41 leg A thorough: start,end in 0..40, step 1..9, interval 1..12 (range) + labels/series ranges;
-\* arithmetic = set equivalence over 0..5
+\* C41 leg A thorough: start,end in 0..30, step 1..8, interval 1..10 (range) + labels/series ranges;
+\* arithmetic = set equivalence over 0..4
 SPECIFICATION Spec
-CONSTANTS MaxT = 40
-          MaxStep = 9
-          MaxIv = 12
-          EqT = 5
+CONSTANTS MaxT = 30
+          MaxStep = 8
+          MaxIv = 10
+          EqT = 4
 INVARIANTS C41_RangeExactlyOnce C41_RangeAligned C41_WellFormed C41_MetaCovers FunctionalFormAgrees ArithAgreesOnOutput C41_NotStuck
 PROPERTIES C41_Progress
 CHECK_DEADLOCK FALSE
